@@ -1005,10 +1005,17 @@ func ifaceContractFor(prog *Program, fi *FuncInfo) *Contract {
 	if _, isPtr := rt.(*types.Pointer); !isPtr {
 		rt = types.NewPointer(rt)
 	}
+	// deterministic choice when several interface contracts match: sorted by key (callers through another matching
+	// interface see that interface's own contract; the implementation is checked against the first)
+	var keys []string
 	for key, ct := range prog.Contracts {
-		if !ct.Iface {
-			continue
+		if ct.Iface {
+			keys = append(keys, key)
 		}
+	}
+	sort.Strings(keys)
+	for _, key := range keys {
+		ct := prog.Contracts[key]
 		parts := strings.Split(key, ".")
 		if len(parts) != 3 || parts[2] != fi.Decl.Name.Name {
 			continue
